@@ -54,12 +54,14 @@ func vCoreTables() []vTable {
 		/* 40 */ one("/t", vRoute{method: "POST", path: "/a"}, vRoute{method: "POST", path: "/{v}", consumes: vAJ}, vRoute{method: "GET", path: "/a"}, vRoute{method: "GET", path: "/{w}", produces: vAJ}),
 		/* 41 */ one("/t", vRoute{method: "GET", path: "/a", cond: true}, vRoute{method: "GET", path: "/a", cond: true}),
 		/* 42 */ one("/t", g("/b/"), vRoute{method: "POST", path: "/b/"}, g("/b/c/"), g("/{v}/")), // templates written with a trailing slash
+		/* 43 */ one("/t", g("/{v}:go"), g("/a"), vRoute{method: "POST", path: "/b"}), // a custom-verb route on a variable in front of literal siblings
+		/* 44 */ one("/t", vRoute{method: "POST", path: "/a/b", consumes: vAX}, vRoute{method: "POST", path: "/a/{y}"}, vRoute{method: "POST", path: "/{x}/{y}"}, vRoute{method: "GET", path: "/a/b", produces: vAX}, vRoute{method: "GET", path: "/a/{y}"}, vRoute{method: "GET", path: "/{x}/{y}"}), // the most specific of three is ineligible by media type
 	}
 }
 
 // tables that use template forms only CurlyRouter documents
 func vCurlyOnly(tbl int) bool {
-	return tbl == 2 || tbl == 3 || tbl == 6 || tbl == 18 || tbl == 22 || tbl == 28 || tbl == 37
+	return tbl == 2 || tbl == 3 || tbl == 6 || tbl == 18 || tbl == 22 || tbl == 28 || tbl == 37 || tbl == 43
 }
 
 func vTableFor(tbl int) vTable {
